@@ -381,8 +381,8 @@ firing('c18-postfix-missing', 'C18', MB, "            for postfix in ('_limits',
 firing('c19-test-flipped', 'C19', DS,
        "            if not isinstance(request, dict) or request.get('SECoP') != 'discover':", "            if not isinstance(request, dict) or request.get('SECoP') == 'discover':", 'answer only to discover requests')
 silent('c19-inverted-branches', 'C19', DS,
-       "            if not isinstance(request, dict) or request.get('SECoP') != 'discover':\n                continue\n            self.log.debug('Answering UDP broadcast from: %s',\n                           format_address(addr))\n            for port in self.ports:\n                self.sock.sendto(self._getMessage(port), addr)",
-       "            if isinstance(request, dict) and request.get('SECoP') == 'discover':\n                self.log.debug('Answering UDP broadcast from: %s',\n                               format_address(addr))\n                for port in self.ports:\n                    self.sock.sendto(self._getMessage(port), addr)")
+       "            if not isinstance(request, dict) or request.get('SECoP') != 'discover':\n                continue\n            self.log.debug('Answering UDP broadcast from: %s',\n                           format_address(addr))\n            for port in self.ports:\n                try:\n                    self.sock.sendto(self._getMessage(port), addr)\n                except OSError as e:",
+       "            if not (isinstance(request, dict) and request.get('SECoP') == 'discover'):\n                continue\n            self.log.debug('Answering UDP broadcast from: %s',\n                           format_address(addr))\n            for port in self.ports:\n                try:\n                    self.sock.sendto(self._getMessage(port), addr)\n                except OSError as e:")
 firing('c19-handler-returns', 'C19', DS, "            except ValueError:  # includes UnicodeDecodeError and JSONDecodeError\n                continue", "            except ValueError:  # includes UnicodeDecodeError and JSONDecodeError\n                return", 'contained')
 firing('c19-other-builder-for-budget', 'C19', DS,
        "        available = MAX_MESSAGE_LEN - len(self._getMessage(2**16-1))", "        available = MAX_MESSAGE_LEN - len(self.description) - 100", 'C19.R2')
